@@ -112,6 +112,37 @@ def check_case(ctx, c, r, m, msc, dis):
                 break
             rows += 1
             ctx.case_done(("row", c.cid, x), abs(lit) > 10 * littol and abs(W[x]) > 10 * littol)
+    # ---------------------------------------------------------------- oracle: whole grid up to the Fokker-Planck map
+    # (C05_full_step_energy): energy moment after wake, RF, drift = before + Sum_x pred(x)*charge(x)
+    if "gD" in grids and "gR" in grids and not any(isinstance(v, str) for v in grids["gD"]):
+        fits = True
+        for x in range(n):
+            m0, m1, ab, (a, b) = hc.row_moments(g0, n, x)
+            if ab == 0:
+                continue
+            ok1, a1, b1 = hc.row_fits(n, it, Fraction(wp[x]), a, b)
+            ok2, _, _ = hc.row_fits(n, it, parse_c(r["rfoff"][0][x]), a1, b1) if ok1 else (False, 0, 0)
+            fits = fits and ok1 and ok2
+        gr = grids["gR"]
+        for y in range(n):
+            col = [gr[x * n + y] for x in range(n)]
+            nzi = [x for x, v in enumerate(col) if v != 0]
+            if nzi:
+                okc, _, _ = hc.row_fits(n, it, Fraction(fl(r["droff"][0][y])), min(nzi), max(nzi) + 1)
+                fits = fits and okc
+        if fits:
+            e_before = sum((i % n) * v for i, v in enumerate(g0))
+            e_after = sum((i % n) * v for i, v in enumerate(grids["gD"]))
+            want = e_before + sum(pred[x] * hc.row_moments(g0, n, x)[0] for x in range(n))
+            tolg = 64 * n * EPS * sum(abs(v) for v in g0)       # three maps, <= 16 roundings each, lever arm n
+            if abs(e_after - want) > tolg or abs(sum(grids["gD"]) - sum(g0)) > 64 * EPS * sum(abs(v) for v in g0):
+                ctx.violation("impl-oracle", "energy moment of the grid after wake kick, RF kick and drift is not the one before "
+                              "plus Sum_x (t(x-xc)-W(x))*charge(x), or the charge changed",
+                              case=c.replay(), observed=dict(energy=float(e_after), charge=float(sum(grids["gD"]))),
+                              expected=dict(energy=float(want), charge=float(sum(g0)), tol=float(tolg)),
+                              sig=dict(sig0, clause="full-step-energy"))
+            ctx.case_done(("fullstep", c.cid), abs(want - e_before) > 10 * tolg)
+            ctx.count("full-step-energy")
     # ---------------------------------------------------------------- oracle: drift convention (content moves by -angle*p)
     dro = [fl(v) for v in r["droff"][0]]
     dq, dp = fl(r["axes"][0][0]), fl(r["axes"][0][1])
